@@ -44,11 +44,14 @@ struct tuple_leaf {
 
     [[nodiscard]] constexpr auto get_impl(index_constant<I> /*ic*/) const& noexcept -> T const& { return _value; }
 
-    [[nodiscard]] constexpr auto get_impl(index_constant<I> /*ic*/) && noexcept -> T&& { return etl::move(_value); }
+    [[nodiscard]] constexpr auto get_impl(index_constant<I> /*ic*/) && noexcept -> T&&
+    {
+        return static_cast<T&&>(_value);
+    }
 
     [[nodiscard]] constexpr auto get_impl(index_constant<I> /*ic*/) const&& noexcept -> T const&&
     {
-        return etl::move(_value);
+        return static_cast<T const&&>(_value);
     }
 
     constexpr auto swap_impl(index_constant<I> /*ic*/, T& other) noexcept(is_nothrow_swappable_v<T>) -> void
@@ -111,11 +114,11 @@ private:
     template <size_t N, typename... Us>
     friend constexpr auto get(tuple<Us...>& t) -> auto&; // NOLINT
     template <size_t N, typename... Us>
-    friend constexpr auto get(tuple<Us...> const& t) -> auto const&; // NOLINT
+    friend constexpr auto get(tuple<Us...> const& t) -> decltype(auto); // NOLINT
     template <size_t N, typename... Us>
     friend constexpr auto get(tuple<Us...>&& t) -> auto&&; // NOLINT
     template <size_t N, typename... Us>
-    friend constexpr auto get(tuple<Us...> const&& t) -> auto const&&; // NOLINT
+    friend constexpr auto get(tuple<Us...> const&& t) -> decltype(auto); // NOLINT
     template <typename T, typename... Us>
     friend constexpr auto get(tuple<Us...>& t) -> auto&; // NOLINT
     template <typename T, typename... Us>
@@ -135,7 +138,7 @@ private:
     }
 
     template <etl::size_t I>
-    [[nodiscard]] constexpr auto get_impl(etl::index_constant<I> ic) const& noexcept -> auto const&
+    [[nodiscard]] constexpr auto get_impl(etl::index_constant<I> ic) const& noexcept -> decltype(auto)
     {
         return _impl.get_impl(ic);
     }
@@ -147,7 +150,7 @@ private:
     }
 
     template <etl::size_t I>
-    [[nodiscard]] constexpr auto get_impl(etl::index_constant<I> ic) const&& noexcept -> auto const&&
+    [[nodiscard]] constexpr auto get_impl(etl::index_constant<I> ic) const&& noexcept -> decltype(auto)
     {
         return etl::move(_impl).get_impl(ic);
     }
@@ -203,7 +206,7 @@ template <etl::size_t I, typename... Ts>
 }
 
 template <etl::size_t I, typename... Ts>
-[[nodiscard]] constexpr auto get(tuple<Ts...> const& t) -> auto const&
+[[nodiscard]] constexpr auto get(tuple<Ts...> const& t) -> decltype(auto)
 {
     static_assert(I < sizeof...(Ts));
     return t.template get_impl<I>(etl::index_v<I>);
@@ -217,7 +220,7 @@ template <etl::size_t I, typename... Ts>
 }
 
 template <etl::size_t I, typename... Ts>
-[[nodiscard]] constexpr auto get(tuple<Ts...> const&& t) -> auto const&&
+[[nodiscard]] constexpr auto get(tuple<Ts...> const&& t) -> decltype(auto)
 {
     static_assert(I < sizeof...(Ts));
     return etl::move(t).template get_impl<I>(etl::index_v<I>);
